@@ -3,6 +3,12 @@ from . import sched_run
 
 LEAN_TARGETS = ['DawgieVerif.Model.SchedIO']
 TRUSTED = sched_run.TRUSTED
+MANIFEST = dict(
+    text="Lean theorems over Model/Sched.lean for every protocol-conforming history (ValidRun: a worker answers only for a unit in flight; '__all__' is not a target name): one_at_a_time (the list of units in flight never contains a duplicate), executing_iff_inflight (doing sets = units in flight), never_released_while_executing (also after a new request for an executing unit), one_message_per_release (the task messages queued by a dispatch are, by (job,target), exactly the released units, each once), result_applied_once (a result for a unit in flight finds its job, appends exactly one history entry, leaves flight; propagation is C02/C05). Invariants Inv (6 clauses) and Inv2 (6 clauses) by induction over op lists. Tied by op-by-op correspondence with the real schedule/farm; the monitor counts executions in flight per unit and checks every injected reply against history growth.",
+    note='Worker hand-over (a message goes to at most one worker, crew view) is proved and tied under C11. Replies for work released before a reload are out of scope (DESIGN 5.1). Three genuine defects found by this check were repaired in /repo (fix: commits ed37f02, a21bfb0, f11961d). Trusted base as C01.',
+    technique='Lean 4 proof: two invariants by induction over protocol-conforming histories + differential correspondence',
+    design='7/C03',
+)
 WANT = {'C03'}
 
 
